@@ -47,6 +47,10 @@ func (c *BigIntCaster) MarshalTo(a *big.Int, buf []byte) (int, error) {
 	if bsize > 0 {
 		return bsize + 1, nil
 	}
+	if len(buf) < 2 {
+		return 0, ErrInvalidValue
+	}
+	buf[1] = 0
 	return 2, nil
 }
 
